@@ -127,6 +127,34 @@ theorem opposite_sound_counterexample :
     (fun _ => -1) 1 1 (by decide) (by decide)
   simp at this
 
+/-! ### multiCondition2: the verdict at the inner condition, given the modification scan -/
+
+/-- multiCondition2, inner condition: when `isOppositeCond(false, outer, inner)` holds, the outer condition was true
+    and nothing between the two conditions wrote a variable of the outer condition (`ρ'` = the environment at the inner
+    condition), the inner condition is false — "opposite inner condition leads to a dead code block". -/
+theorem multiCondition_opposite_sound (S : Sem) (cpp : Bool) (c1 c2 : Ctx) (outer inner : Expr) (hz : S.lval ['0'] = 0)
+    (h : isOpp cpp false c1 outer c2 inner = true)
+    (a1 : annOK S outer = true) (a2 : annOK S inner = true) (s1 : eqNeSafe outer = true) (s2 : eqNeSafe inner = true)
+    (m1 : cmpSafe S outer = true) (m2 : cmpSafe S inner = true)
+    (ρ ρ' : Env) (hw : ∀ x ∈ outer.vars, ρ' x = ρ x) (v1 v2 : Int)
+    (h1 : eval S ρ outer = some v1) (ht : v1 ≠ 0) (h2 : eval S ρ' inner = some v2) : v2 = 0 := by
+  have h1' : eval S ρ' outer = some v1 := by rw [eval_agree S ρ ρ' outer hw, h1]
+  have := opposite_sound S cpp c1 c2 outer inner hz h a1 a2 s1 s2 m1 m2 ρ' v1 v2 h1' h2
+  by_cases hv : v2 = 0
+  · exact hv
+  · exact absurd ⟨ht, hv⟩ this
+
+/-- multiCondition2, identical inner condition / identical condition after early exit: when `isSameExpression(outer,
+    inner)` holds and no variable of the outer condition was written in between, the inner condition has the truth value
+    the outer one had (inside the `if`: true, after `if (outer) return;`: false). -/
+theorem multiCondition_same_sound (S : Sem) (cpp : Bool) (c1 c2 : Ctx) (outer inner : Expr)
+    (h : isSame cpp c1 outer c2 inner = true)
+    (a1 : annOK S outer = true) (a2 : annOK S inner = true) (s1 : eqNeSafe outer = true) (s2 : eqNeSafe inner = true)
+    (ρ ρ' : Env) (hw : ∀ x ∈ outer.vars, ρ' x = ρ x) (v1 v2 : Int)
+    (h1 : eval S ρ outer = some v1) (h2 : eval S ρ' inner = some v2) : (v1 ≠ 0 ↔ v2 ≠ 0) := by
+  have h1' : eval S ρ' outer = some v1 := by rw [eval_agree S ρ ρ' outer hw, h1]
+  exact (same_sound S cpp c1 c2 outer inner h a1 a2 s1 s2 ρ' v1 v2 h1' h2).1
+
 /-! ### checkCompareValueOutOfTypeRange -/
 
 /-- the verdict table is right for every value in the interval computed for the other operand -/
